@@ -11,17 +11,63 @@ TRUST = ('Trusted: Coq 8.16.1 kernel (full .vo build, no axioms: every property 
          'against a Rust harness rebuilt from the working tree on every run; generators, harness Model impls, canonical printers '
          'and the error-message classifier are part of the trusted base. rustc/std/dependency crates are exercised, not modelled.')
 
+CORR = ('Tie to the code: differential execution of the extracted model against a Rust harness rebuilt from /repo on every run, '
+        'plus an implementation-only property oracle; a break triggers a search for a failing input.')
+
 CLAIMED = {
     'C01': {
         'category': 'proof',
-        'text': ('Kernel-checked theorem on the Gallina transcription of the encoder/decoder: for every type of the family without '
-                 'ordered/hashed/indexed collections, every value and every trailing byte string, decode(encode v ++ rest) = '
-                 '(logical v, rest), for both de_strict_order settings (unbounded: induction over types, loop invariants for the '
-                 'element loop and the 1 MiB-chunk byte loop). Keyed collections are covered by the correspondence and the '
-                 'implementation-only round-trip oracle until their theorem lands. Tie to the code: differential execution over a '
-                 '397-type catalogue in 2 (quick) / 4 (thorough) feature configurations on every run.'),
+        'text': ('Kernel-checked theorem C01_round_trip on the Gallina transcription of every BorshSerialize/BorshDeserialize impl: for every well-formed type '
+                 '(all constructors incl. ordered/hashed/indexed collections, deque, wrappers, skipped fields, enums), every value, both de_strict_order settings '
+                 'and every trailing byte string, decode(encode v ++ rest) = (logical v, rest). Unbounded: induction over the type universe, loop invariants '
+                 'for the element loop and the 1 MiB-chunk/doubling byte loop (all lengths), strict total order of the model of Ord. ' + CORR +
+                 ' 397-type catalogue x generated values in 2 (quick) / 4 (thorough) feature configurations.'),
         'design_ref': 'DESIGN.md section 5 C01, section 4',
-        'technique': 'Coq proof (induction on the type universe + loop invariants) + model/implementation differential correspondence',
+        'technique': 'Coq proof (induction on the type universe + loop invariants + order theory) + model/implementation differential correspondence',
+    },
+    'C05': {
+        'category': 'proof',
+        'text': ('Kernel-checked: for EVERY type and EVERY byte string a successful slice decode reads a prefix, is unaffected by what follows (C05_extend), and every proper '
+                 'prefix of what it read is rejected with "unexpected length" (C05_consumes_prefix); with C01: streams of heterogeneous values read back in order, the four '
+                 'whole-input entry points reject left-over bytes, all six entry points reject every proper prefix of a valid encoding. ' + CORR +
+                 ' Streams of 1..8 values, all/sampled truncation points, tails, six entry points incl. a counting reader.'),
+        'design_ref': 'DESIGN.md section 5 C05',
+        'technique': 'Coq proof (parser-combinator invariant PS proved for the whole decoder by induction on types) + differential correspondence',
+    },
+    'C16': {
+        'category': 'proof',
+        'text': ('Kernel-checked: for EVERY type (no well-formedness needed), every byte string and both strictness settings the slice decoder fails only with InvalidData and '
+                 'never panics or exhausts model fuel (C16_kind, C16_no_panic); truncated valid encodings give the unexpected-length message, leftovers the not-all-bytes-read '
+                 'message, zero-sized collections the public ZST message. ' + CORR + ' Truncations, single-byte corruptions, random strings and adversarial length prefixes over '
+                 'every deserializable catalogue type incl. all feature-gated impls.'),
+        'design_ref': 'DESIGN.md section 5 C16',
+        'technique': 'Coq proof (same parser invariant, error-kind clause) + differential correspondence on malformed inputs',
+    },
+    'C14': {
+        'category': 'proof',
+        'text': ('Kernel-checked on the model: every guarded collection kind with a memory-zero-sized element/key type is refused with InvalidData+ZST message on serialize for every value '
+                 'and on deserialize for EVERY input incl. the empty one (no length read first); zero-sized types themselves and arrays/options of them encode and round-trip. '
+                 'PARTIAL: the agreement with schema validation is covered by C10 theorems on containers and by correspondence (Vec<([u8;0],[u8;0])> witness), not yet by a theorem '
+                 'linking mem_zst to schema_of. ' + CORR + ' mem_zst is compared with the real size_of::<T>() for all 397 catalogue types on every run.'),
+        'design_ref': 'DESIGN.md section 5 C14',
+        'technique': 'Coq proof (direct from the transcribed guards + round trip) + size_of cross-check + differential correspondence',
+    },
+    'C09': {
+        'category': 'proof',
+        'text': ('Kernel-checked on a statement-by-statement transcription of max_serialized_size_impl/is_zero_size_impl (explicit stack, count multiplier, checked arithmetic, every early return): '
+                 'never panics/out of fuel; sound (no described value is longer) and attained (when inhabited) for every container; refines the unbounded-arithmetic maximum '
+                 '(Ok n below 2^64, Overflow otherwise) for containers whose range ends are u64; Recursive only at a reachable cycle, MissingDefinition only for a reached undefined name. '
+                 + CORR + ' ~127k (quick) / ~980k (thorough) containers: bounded-exhaustive small graphs + random + for_type containers of Rust types, and an independent Python oracle.'),
+        'design_ref': 'DESIGN.md section 5 C09; NOTES-schema.md',
+        'technique': 'Coq proof (fuel induction with stack invariant, simulation against an unbounded-N specification) + bounded-exhaustive container correspondence',
+    },
+    'C10': {
+        'category': 'proof',
+        'text': ('Kernel-checked on the transcription of validate_impl/check_length_width/is_zero_size: total (no panic, fuel never exhausted) for every container; '
+                 'is_zero_size = Ok true iff the inductive ZeroSized holds (every other answer refutes it); validate = Ok iff WellFormed (the conjunction in the property statement); '
+                 'the declaration blamed by an error is reachable and has the named defect. ' + CORR + ' Same container corpus under catch_unwind, hostile ranges/widths/cycles included.'),
+        'design_ref': 'DESIGN.md section 5 C10; NOTES-schema.md',
+        'technique': 'Coq proof (fuel induction, height-indexed derivations) + bounded-exhaustive container correspondence',
     },
 }
 
